@@ -152,6 +152,17 @@ func (p *FakePeer) deliver(m *conn.Message) (ok bool) {
 	}
 }
 
+// barrier delivers a no-op message and waits until the dispatcher's feed loop has
+// taken it: the loop handles messages one at a time, so everything delivered
+// before the barrier has then been handled completely.
+func (p *FakePeer) barrier() bool {
+	m := &conn.Message{Message: &p2p.Message{Type: p2p.Message_CANCEL_PIECE, CancelPiece: &p2p.CancelPieceMessage{}}}
+	if !p.deliver(m) {
+		return false
+	}
+	return WaitFor(2*time.Second, func() bool { return len(p.recv) == 0 || p.Closed() })
+}
+
 // DownloadCall tracks one Scheduler.Download invocation.
 type DownloadCall struct {
 	Blob     int
@@ -375,7 +386,7 @@ func (h *H) Feed(i int, n int) int {
 			break
 		}
 		pc := piece
-		if !WaitFor(2*time.Second, func() bool { return d.Stat().Bitfield().Test(uint(pc)) || p.Closed() }) {
+		if !p.barrier() {
 			break
 		}
 		if d.Stat().Bitfield().Test(uint(pc)) {
@@ -413,7 +424,10 @@ func (h *H) RequestPiece(i, k int) bool {
 	if !p.deliver(conn.NewPieceRequestMessage(k, h.Blobs[i].MetaInfo.GetPieceLength(k))) {
 		return false
 	}
-	return WaitFor(2*time.Second, func() bool { return p.PayloadsServed() > before })
+	if !p.barrier() {
+		return false
+	}
+	return p.PayloadsServed() > before
 }
 
 // HasPendingComplete reports whether a completion notice for blob i is pending.
